@@ -120,9 +120,13 @@ theorem childAt_setChild (d : Doc) (sel : Sel) (c y : Doc) (hc : childAt d sel =
     cases sel with
     | key k =>
       simp only [childAt, childKey] at hc
-      cases hg : items[fastStrToNum k]? with
-      | none => simp [hg] at hc
-      | some v => exact ⟨by simp [setChild, childAt, childKey, setAtIdx_get_same, hg], rfl⟩
+      cases hk : arrayKeyIndex k with
+      | none => simp [hk] at hc
+      | some ki =>
+        simp only [hk] at hc
+        cases hg : items[ki]? with
+        | none => simp [hg] at hc
+        | some v => exact ⟨by simp [setChild, childAt, childKey, hk, setAtIdx_get_same, hg], by simp [setChild, hk, isUndef]⟩
     | idx i =>
       simp only [childAt, childIdx] at hc
       cases hg : items[i]? with
